@@ -12,9 +12,7 @@
 //!
 //! Known findings (tagged, never hidden):
 //!   call-immediate-sign-or-complex       CALL immediates that print with a sign or as a sum (DESIGN §7, 11)
-//!   delay-prefix-plus-function-duration  DELAY without frame names whose duration is +f(..): the prefix plus prints
-//!                                        nothing and the grouping rule of the DELAY writer only looks at the outermost node (NEW;
-//!                                        residual of delay-duration-start-read-as-qubit, which /repo commit bf4c513 repaired)
+//! (two DELAY findings of this check were repaired in /repo: bf4c513, 57c1d21 -- see known_findings.d/C04.json)
 
 use super::c02::{self, AbsCtx, ExprMode, PhCtx};
 use crate::runner::{Outcome, Summary, Violation};
@@ -29,7 +27,6 @@ use serde_json::{json, Value};
 use std::str::FromStr;
 
 pub const FINDING_CALL: &str = "call-immediate-sign-or-complex";
-pub const FINDING_DELAY: &str = "delay-prefix-plus-function-duration";
 
 fn contains_ph(v: &Value) -> bool {
     match v {
@@ -107,31 +104,6 @@ fn call_immediate_signed(is: &[Instruction]) -> bool {
     })
 }
 
-/// DELAY without frame names, re-parsed with more qubits than it was built with (the parser took the first
-/// tokens of the duration as qubits)
-fn delay_grew_qubits(built: &[Instruction], reparsed: &[Instruction]) -> bool {
-    use quil_rs::expression::{Expression, PrefixOperator};
-    // the residual shape: (one or more) prefix plus over a function call
-    fn plus_over_function(e: &Expression) -> bool {
-        match e {
-            Expression::Prefix(p) if p.operator == PrefixOperator::Plus => {
-                matches!(&*p.expression, Expression::FunctionCall(_)) || plus_over_function(&p.expression)
-            }
-            _ => false,
-        }
-    }
-    let (built, reparsed) = (flat(built), flat(reparsed));
-    built.iter().any(|i| matches!(i, Instruction::Delay(d) if d.frame_names.is_empty() && plus_over_function(&d.duration)))
-        && built.len() == reparsed.len()
-        && built.iter().zip(reparsed.iter()).any(|(a, b)| match (a, b) {
-            (Instruction::Delay(x), Instruction::Delay(y)) => {
-                x.frame_names.is_empty() && y.frame_names.is_empty() && y.qubits.len() > x.qubits.len()
-                    && y.qubits[..x.qubits.len()] == x.qubits[..]
-            }
-            _ => false,
-        })
-}
-
 pub struct Verdict {
     pub text: Option<String>,
     pub debug_text: String,
@@ -179,14 +151,15 @@ pub fn check_value(o: &mut Outcome, instrs: &[Instruction], has_ph: bool, label:
                     v.parsed = true;
                     let l1 = p1.to_instructions();
                     let (a, b) = (by_value(&listing), by_value(&l1));
+                    if a.to_string().contains("branch-cut-sensitive") || b.to_string().contains("branch-cut-sensitive") {
+                        o.count("holds an expression not judged by value (sign of zero selects a branch)");
+                    }
                     if approx_eq(&a, &b) {
                         v.equivalent = true;
                     } else {
                         let mut viol = Violation::new("re-parsed program is equivalent", json!(c02::program_abs(&program)), json!(c02::program_abs(&p1)))
-                            .note(format!("{label}: {text:?}"));
-                        if delay_grew_qubits(&listing, &l1) {
-                            viol = viol.finding(FINDING_DELAY);
-                        } else if call_immediate_signed(&listing) {
+                            .note(format!("{label}: {text:?}; by value: {a} vs {b}"));
+                        if call_immediate_signed(&listing) {
                             viol = viol.finding(FINDING_CALL);
                         }
                         o.violate(viol);
@@ -231,10 +204,8 @@ pub fn replay(_ctx: &Ctx, case: &Value) -> Outcome {
                 o.diverge(format!("printed text {t:?} differs from the model's {want:?}"));
             }
         }
-        let ambiguous = case["ambiguous"].as_bool().unwrap_or(false);
-        let delay_failed = o.violations.iter().any(|v| v.finding.as_deref() == Some(FINDING_DELAY));
-        if ambiguous != delay_failed {
-            o.diverge(format!("model says DELAY ambiguous = {ambiguous}, the real round trip lost the qubit split = {delay_failed}"));
+        if case["ambiguous"].as_bool().unwrap_or(false) {
+            o.diverge("the model finds the printed DELAY ambiguous".to_string());
         }
     }
     o
